@@ -21,7 +21,7 @@ func GenerateScalarSuperSetRule(in profile.ScalarSetRule, iriExpander *misc.IriE
 	rego = append(rego, fmt.Sprintf("%s_array = %s with data.sourceNode as %s", inValuesTestVariable, pathResult.rule, in.Variable.Name))
 	rego = append(rego, fmt.Sprintf("%s_scalar = %s_array[_]", inValuesTestVariable, inValuesTestVariable))
 	rego = append(rego, fmt.Sprintf("%s = as_string(%s_scalar)", inValuesTestVariable, inValuesTestVariable))
-	rego = append(rego, fmt.Sprintf("%s = { %s}", inValuesVariable, regoStringList(in.Argument)))
+	rego = append(rego, fmt.Sprintf("%s = %s", inValuesVariable, regoStringSet(in.Argument)))
 	// Add the validation
 	if in.Negated {
 		rego = append(rego, fmt.Sprintf("%s[%s]", inValuesVariable, inValuesTestVariable))
